@@ -170,6 +170,34 @@ def unit_vectors(model, sizes):
     return recs
 
 
+def unit_long_vector(model, n):
+    """a ranks / scores vector of n > 4 elements with exactly one non-number, at every position in turn:
+    rejected with TypeError / ValueError and nothing modified (the grammar units above stop at 3 elements;
+    the for-every-length proof of the prefix covers this too, when it is attempted)"""
+    S = extract.Scratch(model)
+    game.stub_gauss_uninterpreted(S)
+    recs = []
+    nonnum = [t for t in range(11) if t not in (AnyObj.BOOL, AnyObj.INT, AnyObj.FLOAT)]
+    for vec in ("ranks", "scores"):
+        for j in range(n):
+            ctx = Ctx("U")
+
+            def run(ctx, vec=vec, j=j):
+                m, _ = game.mk_model(ctx, S)
+                teams = game.mk_teams(ctx, S, (1,) * n)
+                vals = [k for k in range(n)]
+                vals[j] = AnyObj("intruder", ctx, own_cls=S.rating_cls, allowed=nonnum)
+                snap = game.snapshot(teams, m)
+                out = call(m.rate, teams, **{vec: vals})
+                ok = out[0] == "raise" and type(out[1]) in (TypeError, ValueError)
+                rp = {"kind": "c13_long_vector", "model": model, "vec": vec, "n": n, "j": j}
+                ctx.oblige(f"C13/{model}/rate/rejects-a-non-number-at-any-position-of-a-long-{vec}-vector[{j} of {n}]",
+                           z3.And(z3.BoolVal(bool(ok)), game.heap_unchanged(snap)), meta={"fn": f"{model}.rate", "replay": rp})
+            explore(ctx, run)
+            recs += settle(ctx.all_obls, mode="U")
+    return recs
+
+
 def unit_foreign_native():
     """every ordered pair (host model, foreign model), natively, on the imported package: a foreign
     model's rating anywhere in the teams is rejected with TypeError/ValueError by rate and the three
@@ -437,9 +465,17 @@ def unit_unbounded(model):
     tree = extract.parse(relpath)
     fn = extract.find_function(tree, f"{model}.rate")
     cls_node = next((n for n in tree.body if isinstance(n, ast.ClassDef) and n.name == model), None)
-    f, npre = scan.prefix_is_pure(fn, allowed_calls=("isinstance", "len", "ValueError", "TypeError", "self._check_teams"), cls=cls_node)
-    recs.append(driver.rec(f"C13/{model}/rate/prefix-writes-nothing", "discharged" if not f and npre >= 2 else "refuted", "ast-scan", 0, fn=q2, unbounded=True,
-                           note=str(f[:4]) if f else f"{npre} prefix statements", replay={"kind": "c13_unbounded", "model": model} if f else None))
+    unknown = []
+    f, npre = scan.prefix_is_pure(fn, allowed_calls=("isinstance", "len", "ValueError", "TypeError", "self._check_teams"), cls=cls_node,
+                                  resolve=scan.package_resolver(tree, extract.parse), unknown=unknown)
+    if not f and unknown:
+        # a call the scan cannot follow: the frame of the prefix is not established syntactically on this tree
+        # (the heap comparisons of `frame-on-reject` for the listed container lengths still decide)
+        recs.append(driver.rec(f"C13/{model}/rate/prefix-writes-nothing/unbounded-proof", "note", "ast-scan", 0, kind="note", fn=q2,
+                               note=f"not attempted: {unknown[:3]}"))
+    else:
+        recs.append(driver.rec(f"C13/{model}/rate/prefix-writes-nothing", "discharged" if not f and npre >= 2 else "refuted", "ast-scan", 0, fn=q2, unbounded=True,
+                               note=str(f[:4]) if f else f"{npre} prefix statements", replay={"kind": "c13_unbounded", "model": model} if f else None))
     fn2 = extract.find_function(tree, f"{model}._check_teams")
     f2 = [(n.lineno, "store / call in _check_teams") for n in ast.walk(fn2)
           if isinstance(n, (ast.Assign, ast.AugAssign, ast.Delete)) or
@@ -469,6 +505,7 @@ def units(tier):
             us.append(("unit_vectors", (m, sizes)))
         us.append(("unit_foreign", (m,)))
         us.append(("unit_history", (m,)))
+        us.append(("unit_long_vector", (m, 6 if tier == "quick" else 8)))
         us.append(("unit_unbounded", (m,)))
     return us
 
